@@ -1269,6 +1269,10 @@ STATE_SWITCH:
                         // We now need to check if this is the last boundary in the payload
                         parser->parser_state = STATE_BOUNDARY_IS_LAST2;
 
+                        // The boundary may end exactly at the end of this chunk, in
+                        // which case there is no byte to examine yet.
+                        if (pos >= len) return HTP_OK;
+
                         goto STATE_SWITCH;
                     }
                 } // while
